@@ -164,6 +164,11 @@ type Sim struct {
 	sigHash   uint64
 	Viol      []Violation
 	MaxEvents uint64
+	// FairTail: once a replayed recording is used up, scheduling continues
+	// round-robin (longest-waiting enabled task first) instead of always
+	// staying with the current task
+	FairTail  bool
+	lastRan   map[int]uint64
 	aborted   bool
 	running   bool
 	pctPrio   []int
@@ -363,10 +368,20 @@ func (s *Sim) enabled() ([]*Task, bool) {
 func (s *Sim) choose(en []*Task) *Task {
 	n := len(en)
 	if n == 1 {
+		if s.lastRan != nil {
+			s.lastRan[en[0].ID] = s.seq + 1
+		}
 		return en[0]
 	}
 	idx := 0
-	if !s.tp.Replaying() {
+	if s.FairTail && s.tp.Exhausted() {
+		// beyond the recording: the enabled task that has waited longest
+		for i, t := range en {
+			if s.lastRan[t.ID] < s.lastRan[en[idx].ID] {
+				idx = i
+			}
+		}
+	} else if !s.tp.Replaying() {
 		switch s.strat.Kind {
 		case 0:
 			idx = int(s.tp.Raw() % uint64(n))
@@ -396,6 +411,10 @@ func (s *Sim) choose(en []*Task) *Task {
 		}
 	}
 	idx = s.tp.Force(n, idx)
+	if s.lastRan == nil {
+		s.lastRan = map[int]uint64{}
+	}
+	s.lastRan[en[idx].ID] = s.seq + 1
 	return en[idx]
 }
 
@@ -788,6 +807,14 @@ func WgWait(p unsafe.Pointer) { s := must(); s.point(request{kind: KWgWait, obj:
 // Atomic is a sequentially consistent atomic access to p.
 func Atomic(p unsafe.Pointer) { s := must(); s.point(request{kind: KAtomic, obj: p}) }
 
+// Forget drops whatever the simulation knows about the synchronisation object
+// at p: a new object has been allocated where an old one used to live.
+func Forget(p unsafe.Pointer) {
+	if s := cur; s != nil {
+		delete(s.locks, p)
+	}
+}
+
 // Modes of an atomic operation (see the KAtomic case).
 const (
 	AtomicBoth        = 0
@@ -887,8 +914,8 @@ func anyProbe(loc func() any, label string, k Kind) {
 	func() {
 		defer func() { recover() }()
 		v := reflect.ValueOf(loc())
-		if v.Kind() == reflect.Ptr && !v.IsNil() {
-			p = v.UnsafePointer()
+		if v.Kind() == reflect.Ptr && !v.IsNil() && v.Type().Elem().Size() > 0 {
+			p = v.UnsafePointer() // (zero-size objects share one address and are no locations)
 		}
 	}()
 	if p == nil {
